@@ -416,6 +416,9 @@ Proof.
   induction p as [|n p IH]; intros t u t' Hwf H.
   - destruct t; cbn in H; try discriminate. inversion H. exact I.
   - destruct t as [h | sc | ch]; cbn [tree_update] in H; try discriminate.
+    { (* a parameter of a scale bracket: still a scale *)
+      destruct p as [|f [|? ?]]; try discriminate.
+      destruct (scale_update sc n f u); [|discriminate]. inversion H. exact I. }
     match type of H with match ?g ch with _ => _ end = _ => set (go := g) in * end.
     destruct (go ch) as [ch'|e] eqn:Eg; [|discriminate]. inversion H; subst t'. clear H.
     assert (G : forall l l', go l = Ok l' ->
